@@ -6,4 +6,5 @@ import (
 	_ "github.com/saucelabs/forwarder/verifharness/c02"
 	_ "github.com/saucelabs/forwarder/verifharness/c16"
 	_ "github.com/saucelabs/forwarder/verifharness/c17"
+	_ "github.com/saucelabs/forwarder/verifharness/c20"
 )
